@@ -47,19 +47,13 @@ def run(rep, prog, tier):
     from .c10 import layout as layout10
     c01.layout(_Relabel(rep, 'R03.layout'), interps)
     layout10(_Relabel(rep, 'R03.layout'), interps)
-    # antisymmetry (shared with C01's sign table)
-    tmp_signs = []
-    for e in ('mna', 'ssm'):
-        tmp_signs += interps[e].signs
-    table = {}
-    f = prog.funcs.get(f'{SR.NA}::voltage_source_incidence_matrix')
-    for term, sg in (c01._return_signs(f.node, prog) if f else []): table[('B', term)] = sg
-    for s in tmp_signs:
-        if s['fn'].endswith('source_incidence_matrix') and 'inductance' not in s['fn'] and s['terminal']: table[('Q', s['terminal'])] = s['sign']
-        if s['fn'].endswith('element_incidence_matrix') and s['terminal']: table[('Delta', s['terminal'])] = s['sign']
-    for mat in ('B', 'Q', 'Delta'):
-        a, b = table.get((mat, 'node1')), table.get((mat, 'node2'))
-        rep.ob('R03.antisym', mat, None if a is None or b is None else a == -b, f'{mat}[node1]={a}, {mat}[node2]={b}')
+    # antisymmetry (shared with C01's sign tables: case analysis on the array-build terms)
+    from . import incidence as INC
+    for mat, tb in INC.tables(prog).items():
+        if 'undecided' in tb:
+            rep.ob('R03.antisym', mat, None, f"incidence table of {mat} not decided: {tb['undecided']}", tb.get('site', '')); continue
+        a, b_, o = tb['node1'], tb['node2'], tb['other']
+        rep.ob('R03.antisym', mat, bool(a == -b_ and a != 0 and o == 0), f'{mat}[node1]={a}, {mat}[node2]={b_}, elsewhere {o}', tb.get('site', ''))
     # reference label
     ctl = Program(root='', sources={'Network/__init__.py': '', 'Network/ctl.py': "def f(network, label):\n    if label != '0':\n        return 1\n    return 0\n"})
     if len(literal_label_compares(ctl)) != 1:
